@@ -199,7 +199,16 @@ func execCall(tr *iavl.MutableTree, c FaultCall, importNodes []*iavl.ExportNode)
 		if err != nil {
 			return callResult{err: err}
 		}
-		return callResult{res: fmt.Sprintf("%d %x", lv, tr.Hash())}
+		// what the handle serves after a load that reported success (the load may have (re)built the fast index)
+		var sb strings.Builder
+		if _, err := tr.Iterate(func(k, v []byte) bool { fmt.Fprintf(&sb, "%q=%q,", k, v); return false }); err != nil {
+			return callResult{err: err}
+		}
+		g, err := tr.Get(c.K)
+		if err != nil {
+			return callResult{err: err}
+		}
+		return callResult{res: fmt.Sprintf("%d %x %s get=%q nil=%v", lv, tr.Hash(), sb.String(), g, g == nil)}
 	case "statechanges":
 		it, err := imm()
 		if err != nil {
